@@ -1006,3 +1006,51 @@ mod tests {
         Ok(())
     }
 }
+
+/// Entry points for the external verification harness (read-only; they call the very functions
+/// `Cache::offset` calls).
+#[cfg(feature = "__internal_verif")]
+impl TimeZone {
+    /// The tail of `from_posix_tz`: rule parse + `TimeZone::new`, without any file lookup.
+    pub(crate) fn verif_from_tz_string(tz_string: &str, v3_ext: bool) -> Result<Self, Error> {
+        let rule = TransitionRule::from_tz_string(tz_string.as_bytes(), v3_ext)?;
+        Self::new(
+            vec![],
+            match rule {
+                TransitionRule::Fixed(local_time_type) => vec![local_time_type],
+                TransitionRule::Alternate(AlternateTime { std, dst, .. }) => vec![std, dst],
+            },
+            vec![],
+            Some(rule),
+        )
+    }
+
+    pub(crate) fn verif_dump(&self) -> crate::offset::local::__verif::ZoneDump {
+        crate::offset::local::__verif::ZoneDump {
+            transitions: self
+                .transitions
+                .iter()
+                .map(|t| (t.unix_leap_time, t.local_time_type_index))
+                .collect(),
+            types: self.local_time_types.iter().map(LocalTimeType::verif_dump).collect(),
+            leap_seconds: self
+                .leap_seconds
+                .iter()
+                .map(|l| (l.unix_leap_time, l.correction))
+                .collect(),
+            rule: self.extra_rule.as_ref().map(TransitionRule::verif_dump),
+        }
+    }
+}
+
+#[cfg(feature = "__internal_verif")]
+impl LocalTimeType {
+    pub(crate) fn verif_dump(&self) -> crate::offset::local::__verif::TypeDump {
+        crate::offset::local::__verif::TypeDump {
+            ut_offset: self.ut_offset,
+            is_dst: self.is_dst,
+            name: self.name.as_ref().map(|n| n.as_ref().to_owned()),
+            name_bytes: self.name.as_ref().map(|n| n.as_bytes().to_vec()),
+        }
+    }
+}
